@@ -1,6 +1,6 @@
 #!/usr/bin/env python3
 """Generate /verif/MANIFEST.json from the table below (single source of truth for the interface)."""
-import json, os
+import json, os, re
 HERE = os.path.dirname(os.path.dirname(os.path.abspath(__file__)))
 
 # id -> (level text, level note, technique, design_ref)
@@ -62,6 +62,21 @@ CHECKS = {
 
 NOT_YET = {}
 
+def setup_cmd(checks):
+  """build exactly what the claimed checks need (their Props modules and drivers), one target at a time so
+  that a broken proof of one property cannot prevent the others from being built (each check rebuilds its
+  own targets anyway and reports a failing build as a broken proof obligation)"""
+  mods, drvs = [], []
+  for c in checks:
+    src = open(os.path.join(HERE, 'harness', 'checks', c['property_id'].lower() + '.py')).read()
+    m = re.search(r"^MODULE\s*=\s*(.+)$", src, re.M)
+    for x in re.findall(r"'([^']+)'", m.group(1)):
+      if x not in mods: mods.append(x)
+    m = re.search(r"^DRIVERS\s*=\s*(.+)$", src, re.M)
+    for x in re.findall(r"'([^']+)'", m.group(1)):
+      if 'pv_' + x not in drvs: drvs.append('pv_' + x)
+  return 'cd lean && for t in ' + ' '.join(mods + drvs) + '; do lake build $t || echo "setup: target $t failed to build"; done'
+
 def main():
   props = [json.loads(l) for l in open(os.path.join(HERE, 'properties.jsonl'))]
   checks, na = [], []
@@ -84,7 +99,7 @@ def main():
       na.append({'property_id': pid, 'reason': NOT_YET.get(pid, 'check not built yet in this round (design in DESIGN.md §5); not claimed until its Lean theorems and correspondence check exist')})
   man = {
     'version': 1,
-    'setup_cmd': 'cd lean && lake build PymtlVerif pv_bits pv_arb pv_queue pv_bstruct pv_vcd pv_mem pv_rv pv_hier pv_nets pv_meta pv_rtl pv_tc pv_sv pv_names',
+    'setup_cmd': setup_cmd(checks),
     'hooks': {
       'guard': 'PYMTL3_VERIF',
       'enable': 'no hooks in /repo are needed so far: checks import pymtl3 from /repo (editable install in /venv) and observe public/semi-public attributes; ./vcheck exports PYMTL3_VERIF=1 for future use',
